@@ -92,6 +92,8 @@ def evaluate(c):
     # ---- whole report
     name, sc = c['model'], 10.0 ** c['scale']
     m = c14.model(name)
+    if name == 'rev-e2e2':
+        m.register_source(mm.Excitation(0.5 - 0.8j), 5)       # a second source: every SOURCE DATA block carries its own values
     if c.get('volt'):
         # sources rebuilt through the constructor with the given complex voltage
         idxs = [s.idx for s in m.sources]
